@@ -146,6 +146,13 @@ def gen_case(rng, root, i):
     elif r < 0.65:
         v = rng.choice(paths)
     env = {"V": v, "W": rng.choice(["b", "x.go", ""])}
+    if dirs and rng.random() < 0.3:
+        # a directory-valued variable ENDING in the separator, to be glued to further name characters (the make idiom $(OUTDIR)app):
+        # the value is substituted verbatim
+        dd = rng.choice(dirs)
+        kids = [p[len(dd) + 1:] for p in paths if p.startswith(dd + "/") and "/" not in p[len(dd) + 1:]]
+        env["S"] = dd + "/"
+        env["K"] = rng.choice(kids) if kids else "nosuch"
     fn = rng.choice(FNS)
     def pick_src():
         r = rng.random()
@@ -154,7 +161,7 @@ def gen_case(rng, root, i):
         if r < 0.80:
             return rng.choice(["missing", "d1/nope", "zz/y"])
         if r < 0.90:
-            return rng.choice(["$V", "${V}", "$V/$W", "./$V"])
+            return rng.choice(["$V", "${V}", "$V/$W", "./$V"] + (["${S}${K}", "${S}$K", "$S$K"] if "S" in env else []))
         return "./" + rng.choice(paths)
     if fn in ("Glob", "GlobNewer"):
         def pick_glob():
@@ -176,7 +183,7 @@ def gen_case(rng, root, i):
     if fn in ("NewestModTime", "OldestModTime"):
         sources = [s for s in sources if "$" not in s] or [rng.choice(paths)]
     r = rng.random()
-    dst = rng.choice(paths) if r < 0.65 else (rng.choice(["missing-dst", "d1/none"]) if r < 0.78 else rng.choice(["$V", "${V}", "./$V", "$V/", "$W"]))
+    dst = rng.choice(paths) if r < 0.65 else (rng.choice(["missing-dst", "d1/none"]) if r < 0.78 else rng.choice(["$V", "${V}", "./$V", "$V/", "$W"] + (["${S}${K}", "$S$K", "${S}$K"] * 2 if "S" in env else [])))
     if fn in ("Path", "Glob", "Dir") and rng.random() < 0.3:
         # the destination lies INSIDE a source that is walked / matched, next to siblings whose names extend its name
         # (app, app.go, application/): everything beneath the source counts, the destination's namesakes included
@@ -209,9 +216,20 @@ def run(ctx):
     reqs = []
     for ti in range(ntrees):
         root = ("d", rng.choice(TIMES), {nm: gen_tree(rng, 1, rng.choice([2, 3, 4, 5])) for nm in rng.sample(NAMES, rng.choice([1, 2, 3, 4, 5]))})
+        if ti % 50 == 7:
+            # a very deep tree (150 levels, far below PATH_MAX): the deciding entry sits at the bottom; everything beneath a source counts
+            node = ("f", BASE + 10**9)
+            for lvl in range(150):
+                node = ("d", BASE - 10**9, {"n": node})
+            root[2]["deep"] = node
+            root[2].setdefault("out", ("f", BASE))
         d = os.path.join(ctx.tmp, "t%d" % ti)
         build(d, root)
         trees.append(root)
+        if "deep" in root[2]:
+            for fn, dst, srcs in [("Dir", "out", ["deep"]), ("Dir", "out", ["."]), ("DirNewer", "out", ["deep"]), ("NewestModTime", "", ["deep"]),
+                                  ("OldestModTime", "", ["deep", "out"]), ("Dir", "deep", ["out"]), ("Path", "out", ["deep"]), ("Glob", "out", ["dee*"])]:
+                reqs.append({"env": {"V": "deep", "W": ""}, "fn": fn, "dst": dst, "sources": srcs, "target": BASE, "tree": ti, "root": d})
         for j in range(per):
             c = gen_case(rng, root, j)
             c["tree"] = ti
